@@ -1121,6 +1121,10 @@ def run(ctx):
         text_validation(ctx, 60 if quick else 600)
     except Exception as ex:   # noqa: BLE001
         ctx.failed_stages.append(('text_validation', 'harness could not drive the implementation: %r' % (ex,)))
+    try:
+        symbolic_text_validation(ctx, 250 if quick else 2500)
+    except Exception as ex:   # noqa: BLE001
+        ctx.failed_stages.append(('text_validation', 'symbolic text harness failed: %r' % (ex,)))
     # ---- recorded defects, re-executed
     known_witnesses(ctx)
     # ---- independent oracle: always (cheap), deep when a stage failed or tier is thorough
@@ -1194,3 +1198,385 @@ MANIFEST = {
             'externref type byte is two bytes, f32 signalling-NaN constants change bits, text form drops NaN payloads. No axioms.',
     'technique': 'Coq proof over hand model + exported tables (reflection), differential correspondence, independent spec-table oracle',
 }
+
+
+# ---------------------------------------------------------------- text form: symbolic identifiers and abbreviations
+# (validation only) The generator writes WAT text with $names, shadowed labels, inline imports/exports,
+# multi-value (param ...) groups and folded instructions, and builds the SAME module from component objects
+# with the numeric indices / label depths it computed itself (no use of the parser). The two byte strings
+# must be equal.
+SYM_NAMES = ['$x', '$y', '$a', '$L', '$loop', '$f', '$main', '$tmp']
+
+
+class _SymGen:
+    def __init__(self, rng):
+        self.rng = rng
+        self.types = []       # (name|None, [(pname|None, t)], [results])
+        self.imports = []     # component objects
+        self.funcs_space = [] # names (or None) of the function index space
+        self.globals_space = []
+        self.fields = []      # text
+        self.defs = {k: [] for k in ('type', 'import', 'table', 'memory', 'global', 'export', 'start', 'elem', 'func', 'data')}
+        self.nexp = 0
+
+    def fresh(self, used):
+        cand = [n for n in SYM_NAMES if n not in used]
+        if cand and self.rng.random() < 0.8:
+            return self.rng.choice(cand)
+        k = 0
+        while '$n%d' % k in used:
+            k += 1
+        return '$n%d' % k
+
+    def ref_text(self, names, idx, p=0.75):
+        """symbolic name when the entry has one (and the name is not ambiguous), else the index"""
+        n = names[idx]
+        if n is not None and names.index(n) == idx and self.rng.random() < p:
+            return n
+        return str(idx)
+
+    def params_text(self, params):
+        """(param $a i32) for named ones, anonymous ones grouped: (param i32 i64)"""
+        out, group = [], []
+        for n, t in params:
+            if n is None:
+                group.append(t)
+                continue
+            if group:
+                out.append('(param %s)' % ' '.join(group))
+                group = []
+            out.append('(param %s %s)' % (n, t))
+        if group:
+            if self.rng.random() < 0.5 or len(group) == 1:
+                out.append('(param %s)' % ' '.join(group))
+            else:
+                out += ['(param %s)' % t for t in group]
+        return ' '.join(out)
+
+    def comp_params(self, params):
+        return [(n if n is not None else i, t) for i, (n, t) in enumerate(params)]
+
+    def export_name(self):
+        self.nexp += 1
+        return 'e%d' % self.nexp
+
+    def inline_exports(self, kind, index):
+        from ppci.wasm import components as C
+        from ppci.wasm.components import Ref
+        txt = ''
+        for _ in range(self.rng.choice([0, 0, 1, 2])):
+            nm = self.export_name()
+            txt += ' (export "%s")' % nm
+            self.defs['export'].append(C.Export(nm, kind, Ref(kind, index=index)))
+        return txt
+
+    # ---- instructions: returns (text, [component instructions])
+    def expr(self, env, depth, folded=False):
+        """an i32-ish operand expression. folded=True: one parenthesised (folded) instruction;
+        otherwise a flat sequence whose items may themselves be folded. returns (text, instrs, _)"""
+        from ppci.wasm.components import Instruction, Ref
+        rng = self.rng
+        r = rng.random()
+        atom = None
+        if r < 0.3 or depth > 2:
+            v = pick(rng, I32_POOL, -2 ** 31, 2 ** 31)
+            atom = ('i32.const %d' % v, [Instruction('i32.const', v)])
+        elif r < 0.5 and env['locals']:
+            i = rng.randrange(len(env['locals']))
+            atom = ('local.get %s' % self.ref_text(env['locals'], i), [Instruction('local.get', Ref('local', index=i))])
+        elif r < 0.6 and self.globals_space:
+            i = rng.randrange(len(self.globals_space))
+            atom = ('global.get %s' % self.ref_text(self.globals_space, i), [Instruction('global.get', Ref('global', index=i))])
+        if atom:
+            t, ins = atom
+            return ('(%s)' % t if folded or rng.random() < 0.3 else t), ins, True
+        op = rng.choice(['i32.add', 'i32.sub', 'i32.mul', 'i32.and', 'i32.lt_s', 'i32.eq'])
+        if folded or rng.random() < 0.5:
+            ta, ia, _ = self.expr(env, depth + 1, True)
+            tb, ib, _ = self.expr(env, depth + 1, True)
+            return '(%s %s %s)' % (op, ta, tb), ia + ib + [Instruction(op)], True
+        ta, ia, _ = self.expr(env, depth + 1, rng.random() < 0.5)
+        tb, ib, _ = self.expr(env, depth + 1, rng.random() < 0.5)
+        return '%s %s %s' % (ta, tb, op), ia + ib + [Instruction(op)], False
+
+    @staticmethod
+    def fold(t):
+        assert t.startswith('(')
+        return t
+
+    def label_ref(self, labels):
+        """pick a branch target; labels = names innermost LAST. returns (text, depth)"""
+        rng = self.rng
+        d = rng.randrange(len(labels))              # depth 0 = innermost
+        name = labels[len(labels) - 1 - d]
+        if name is not None:
+            # the innermost block carrying that name is what the name denotes
+            inner = next(k for k in range(len(labels)) if labels[len(labels) - 1 - k] == name)
+            if inner == d and rng.random() < 0.8:
+                return name, d
+        return str(d), d
+
+    def body(self, env, labels, n, level):
+        from ppci.wasm.components import Instruction, BlockInstruction, Ref
+        rng = self.rng
+        txt, ins = [], []
+        while n > 0:
+            n -= 1
+            r = rng.random()
+            if r < 0.28 and level < 4:
+                kind = rng.choice(['block', 'loop', 'if'])
+                used = [l for l in labels if l]
+                rr = rng.random()
+                if rr < 0.45 and used:
+                    name = rng.choice(used)          # shadow an enclosing label
+                elif rr < 0.85:
+                    name = rng.choice(SYM_NAMES)
+                else:
+                    name = None
+                bt = rng.choice(['emptyblock', 'emptyblock', 'i32', 'f64'])
+                bts = '' if bt == 'emptyblock' else ' (result %s)' % bt
+                k = rng.randrange(1, 4)
+                folded = rng.random() < 0.5
+                nm = ' ' + name if name else ''
+                if kind == 'if':
+                    ct, ci, _ = self.expr(env, 1, folded)
+                    t1, i1 = self.body(env, labels + [name], k, level + 1)
+                    has_else = rng.random() < 0.5
+                    t2, i2 = self.body(env, labels + [name], rng.randrange(1, 3), level + 1) if has_else else ('', [])
+                    ins += ci + [BlockInstruction('if', bt)] + i1 + ([Instruction('else')] + i2 if has_else else []) + [Instruction('end')]
+                    if folded:
+                        txt.append('(if%s%s %s (then %s)%s)' % (nm, bts, self.fold(ct), t1, ' (else %s)' % t2 if has_else else ''))
+                    else:
+                        endnm = nm if rng.random() < 0.3 else ''
+                        txt.append('%s if%s%s %s%s end%s' % (ct, nm, bts, t1, ' else%s %s' % (endnm, t2) if has_else else '', endnm))
+                else:
+                    t1, i1 = self.body(env, labels + [name], k, level + 1)
+                    ins += [BlockInstruction(kind, bt)] + i1 + [Instruction('end')]
+                    if folded:
+                        txt.append('(%s%s%s %s)' % (kind, nm, bts, t1))
+                    else:
+                        txt.append('%s%s%s %s end%s' % (kind, nm, bts, t1, nm if rng.random() < 0.3 else ''))
+            elif r < 0.55 and labels:
+                which = rng.choice(['br', 'br_if', 'br_table'])
+                if which == 'br_table':
+                    refs = [self.label_ref(labels) for _ in range(rng.randrange(1, 5))]
+                    txt.append('(i32.const 1) (br_table %s)' % ' '.join(t for t, _ in refs) if rng.random() < 0.5
+                               else 'i32.const 1 br_table %s' % ' '.join(t for t, _ in refs))
+                    ins += [Instruction('i32.const', 1), Instruction('br_table', [Ref('label', index=d) for _, d in refs])]
+                else:
+                    t, d = self.label_ref(labels)
+                    if which == 'br_if':
+                        fo = rng.random() < 0.5
+                        ct, ci, _ = self.expr(env, 1, fo)
+                        txt.append('(br_if %s %s)' % (t, self.fold(ct)) if fo else '%s br_if %s' % (ct, t))
+                        ins += ci + [Instruction('br_if', Ref('label', index=d))]
+                    else:
+                        txt.append('br %s' % t if rng.random() < 0.5 else '(br %s)' % t)
+                        ins.append(Instruction('br', Ref('label', index=d)))
+            elif r < 0.65 and env['locals']:
+                i = rng.randrange(len(env['locals']))
+                op = rng.choice(['local.set', 'local.tee'])
+                fo = rng.random() < 0.5
+                ct, ci, _ = self.expr(env, 1, fo)
+                txt.append('(%s %s %s)' % (op, self.ref_text(env['locals'], i), self.fold(ct)) if fo
+                           else '%s %s %s' % (ct, op, self.ref_text(env['locals'], i)))
+                ins += ci + [Instruction(op, Ref('local', index=i))]
+            elif r < 0.72 and self.globals_space:
+                i = rng.randrange(len(self.globals_space))
+                ct, ci, _ = self.expr(env, 1, True)
+                txt.append('(global.set %s %s)' % (self.ref_text(self.globals_space, i), self.fold(ct)))
+                ins += ci + [Instruction('global.set', Ref('global', index=i))]
+            elif r < 0.82 and self.funcs_space:
+                i = rng.randrange(len(self.funcs_space))     # includes functions defined LATER
+                txt.append(('call %s' if rng.random() < 0.5 else '(call %s)') % self.ref_text(self.funcs_space, i))
+                ins.append(Instruction('call', Ref('func', index=i)))
+            elif r < 0.87:
+                ti = rng.randrange(len(self.types))
+                tnames = [t[0] for t in self.types]
+                txt.append('i32.const 0 call_indirect (type %s)' % self.ref_text(tnames, ti))
+                ins += [Instruction('i32.const', 0), Instruction('call_indirect', Ref('type', index=ti), Ref('table', index=0))]
+            elif r < 0.94:
+                op = rng.choice(['i32.load', 'i64.load', 'i32.load8_u', 'f64.load', 'i32.load16_s'])
+                off = pick(rng, U32_POOL, 0, 2 ** 32)
+                al = rng.randrange(0, natural_align(op) + 1)
+                kw = (' offset=%d' % off if off else '') + (' align=%d' % (1 << al) if al != natural_align(op) or rng.random() < 0.3 else '')
+                txt.append('(%s%s (i32.const 4))' % (op, kw) if rng.random() < 0.5 else 'i32.const 4 %s%s' % (op, kw))
+                ins += [Instruction('i32.const', 4), Instruction(op, al, off)]
+            else:
+                op = rng.choice(['nop', 'drop', 'memory.size', 'unreachable', 'return'])
+                txt.append(op)
+                ins.append(Instruction(op, 0) if op == 'memory.size' else Instruction(op))
+        return ' '.join(txt), ins
+
+    # ---- module
+    def build(self):
+        from ppci.wasm import components as C
+        from ppci.wasm.components import Ref, Instruction
+        rng = self.rng
+        # explicit types (at most 3 parameters; inline signatures below use more, so that they are new types)
+        used = []
+        for i in range(rng.randrange(1, 4)):
+            name = self.fresh(used) if rng.random() < 0.7 else None
+            used.append(name)
+            pn = []
+            params = []
+            for _ in range(rng.randrange(0, 4)):
+                n = self.fresh(pn) if rng.random() < 0.5 else None
+                pn.append(n)
+                params.append((n, rng.choice(VALTYPES)))
+            results = [rng.choice(VALTYPES) for _ in range(rng.choice([0, 1, 1]))]
+            self.types.append((name, params, results))
+            self.defs['type'].append(C.Type(i, self.comp_params(params), results))
+            self.fields.append('(type%s (func %s%s))' % (' ' + name if name else '', self.params_text(params),
+                                                         ' (result %s)' % ' '.join(results) if results else ''))
+        tnames = [t[0] for t in self.types]
+        # imports first: functions (plain and inline form) and globals
+        fnames, gnames = [], []
+        nfi = rng.randrange(0, 3)
+        nfd = rng.randrange(1, 4)
+        # names of the whole function index space are fixed up front (forward references)
+        for _ in range(nfi + nfd):
+            fnames.append(self.fresh(fnames) if rng.random() < 0.75 else None)
+        self.funcs_space = fnames
+        for i in range(nfi):
+            ti = rng.randrange(len(self.types))
+            nm = ' ' + fnames[i] if fnames[i] else ''
+            tu = '(type %s)' % self.ref_text(tnames, ti)
+            if rng.random() < 0.5:
+                self.fields.append('(import "env" "f%d" (func%s %s))' % (i, nm, tu))
+            else:
+                self.fields.append('(func%s%s (import "env" "f%d") %s)' % (nm, self.inline_exports('func', i), i, tu))
+            self.defs['import'].append(C.Import('env', 'f%d' % i, 'func', i, (Ref('type', index=ti),)))
+        for i in range(rng.randrange(0, 2)):
+            gnames.append(self.fresh(gnames) if rng.random() < 0.7 else None)
+            nm = ' ' + gnames[-1] if gnames[-1] else ''
+            if rng.random() < 0.5:
+                self.fields.append('(import "env" "g%d" (global%s i32))' % (i, nm))
+            else:
+                self.fields.append('(global%s (import "env" "g%d") i32)' % (nm, i))
+            self.defs['import'].append(C.Import('env', 'g%d' % i, 'global', i, ('i32', False)))
+        # memory and table (named; referenced by name from data/elem)
+        mname = rng.choice([None, '$mem', '$x'])
+        self.fields.append('(memory%s%s 1 %d)' % (' ' + mname if mname else '', self.inline_exports('memory', 0), rng.choice([1, 2, 16])))
+        self.defs['memory'].append(C.Memory(0, 1, int(self.fields[-1].split()[-1].rstrip(')'))))
+        tname = rng.choice([None, '$tab', '$x'])
+        self.fields.append('(table%s%s 8 funcref)' % (' ' + tname if tname else '', self.inline_exports('table', 0)))
+        self.defs['table'].append(C.Table(0, 'funcref', 8, None))
+        # globals
+        for _ in range(rng.randrange(0, 3)):
+            gi = len(gnames)
+            gnames.append(self.fresh(gnames) if rng.random() < 0.7 else None)
+            nm = ' ' + gnames[-1] if gnames[-1] else ''
+            mut = rng.random() < 0.5
+            v = pick(rng, I32_POOL, -2 ** 31, 2 ** 31)
+            self.fields.append('(global%s%s %s %s)' % (nm, self.inline_exports('global', gi), '(mut i32)' if mut else 'i32',
+                                                      '(i32.const %d)' % v if rng.random() < 0.5 else 'i32.const %d' % v))
+            self.defs['global'].append(C.Global(gi, 'i32', mut, [Instruction('i32.const', v)]))
+        self.globals_space = gnames
+        # functions
+        for k in range(nfd):
+            fi = nfi + k
+            nm = ' ' + fnames[fi] if fnames[fi] else ''
+            exp = self.inline_exports('func', fi)
+            if rng.random() < 0.6:
+                ti = rng.randrange(len(self.types))
+                params = self.types[ti][1]
+                sig = '(type %s)' % self.ref_text(tnames, ti)
+            else:
+                # inline signature with 4+k parameters: a new type, appended when the function is parsed
+                pn, params = [], []
+                for _ in range(4 + k):
+                    n = self.fresh(pn + [g for g in gnames if g and rng.random() < 0.0]) if rng.random() < 0.5 else None
+                    pn.append(n)
+                    params.append((n, rng.choice(VALTYPES)))
+                results = [rng.choice(VALTYPES) for _ in range(rng.choice([0, 1]))]
+                ti = len(self.types)
+                self.types.append((None, params, results))
+                tnames.append(None)
+                self.defs['type'].append(C.Type(ti, self.comp_params(params), results))
+                sig = self.params_text(params) + (' (result %s)' % ' '.join(results) if results else '')
+            lnames = [n for n, _ in params]
+            ltxt, locs = [], []
+            for _ in range(rng.choice([0, 1, 2, 3])):
+                t = rng.choice(VALTYPES)
+                # a local may share its name with a global / function (different spaces)
+                pool = [g for g in gnames + fnames if g and g not in lnames]
+                n = (rng.choice(pool) if pool and rng.random() < 0.4 else self.fresh(lnames)) if rng.random() < 0.7 else None
+                lnames.append(n)
+                locs.append((n, t))
+                ltxt.append('(local %s %s)' % (n, t) if n else '(local %s)' % t)
+            env = {'locals': lnames}
+            btxt, bins = self.body(env, [], rng.choice([1, 3, 6, 10]), 0)
+            self.fields.append('(func%s%s %s %s %s)' % (nm, exp, sig, ' '.join(ltxt), btxt))
+            self.defs['func'].append(C.Func(fi, Ref('type', index=ti), [(None, t) for _, t in locs], bins))
+        # explicit exports, start, elem, data
+        for _ in range(rng.randrange(0, 3)):
+            i = rng.randrange(len(fnames))
+            en = self.export_name()
+            self.fields.append('(export "%s" (func %s))' % (en, self.ref_text(fnames, i)))
+            self.defs['export'].append(C.Export(en, 'func', Ref('func', index=i)))
+        if gnames and rng.random() < 0.5:
+            i = rng.randrange(len(gnames))
+            en = self.export_name()
+            self.fields.append('(export "%s" (global %s))' % (en, self.ref_text(gnames, i)))
+            self.defs['export'].append(C.Export(en, 'global', Ref('global', index=i)))
+        if rng.random() < 0.4:
+            i = rng.randrange(len(fnames))
+            self.fields.append('(start %s)' % self.ref_text(fnames, i))
+            self.defs['start'].append(C.Start(Ref('func', index=i)))
+        if rng.random() < 0.6:
+            idx = [rng.randrange(len(fnames)) for _ in range(rng.randrange(1, 4))]
+            tuse = '(table %s) ' % tname if tname and rng.random() < 0.5 else ''
+            self.fields.append('(elem %s(i32.const 1) %s%s)' % (tuse, 'func ' if rng.random() < 0.5 else '',
+                                                               ' '.join(self.ref_text(fnames, i) for i in idx)))
+            self.defs['elem'].append(C.Elem(0, (Ref('table', index=0), [Instruction('i32.const', 1)]),
+                                            [Ref('func', index=i) for i in idx]))
+        if rng.random() < 0.6:
+            muse = '(memory %s) ' % mname if mname and rng.random() < 0.5 else ''
+            off = '(offset i32.const 16)' if rng.random() < 0.5 else '(i32.const 16)'
+            self.fields.append('(data %s%s "abc\\00\\ff")' % (muse, off))
+            self.defs['data'].append(C.Data(0, (Ref('memory', index=0), [Instruction('i32.const', 16)]), b'abc\x00\xff'))
+        text = '(module\n  ' + '\n  '.join(self.fields) + '\n)\n'
+        order = ['type', 'import', 'table', 'memory', 'global', 'export', 'start', 'elem', 'func', 'data']
+        return text, [d for k in order for d in self.defs[k]]
+
+
+def gen_symbolic_module(rng):
+    return _SymGen(rng).build()
+
+
+def symbolic_text_validation(ctx, n):
+    from ppci.wasm import Module
+    res = {'same': 0, 'differs': 0, 'exception': 0, 'fixpoint_differs': 0}
+    for _ in range(n):
+        text, defs = gen_symbolic_module(ctx.rng)
+        exp = make_module(defs).to_bytes()
+
+        def go():
+            m = Module(text)
+            b = m.to_bytes()
+            return b, Module(Module(b).to_string()).to_bytes()
+        try:
+            got, fix = with_alarm(10, go)
+        except Exception as ex:   # noqa: BLE001
+            res['exception'] += 1
+            ctx.violation({'fn': 'Module(text) with symbolic identifiers', 'args': [text[:4000]], 'what': 'exception %r' % (ex,),
+                           'key': 'symtext-exception',
+                           'how_to_replay': 'from ppci.wasm import Module; Module(args[0]).to_bytes()'})
+            continue
+        if got != exp:
+            res['differs'] += 1
+            ctx.violation({'fn': 'Module(text) with symbolic identifiers', 'args': [text[:4000]],
+                           'expected': exp.hex(), 'actual': got.hex(), 'key': 'symtext-differs',
+                           'what': 'bytes of the text module differ from the same module built with the numeric indices / label '
+                                   'depths the generator computed (innermost enclosing label of a name, per-space name resolution)',
+                           'how_to_replay': 'from ppci.wasm import Module; Module(args[0]).to_bytes().hex() vs expected'})
+        elif fix != got:
+            res['fixpoint_differs'] += 1
+            ctx.violation({'fn': 'to_string fixpoint of symbolic text module', 'args': [text[:4000]],
+                           'expected': got.hex(), 'actual': fix.hex(), 'key': 'symtext-fixpoint'})
+        else:
+            res['same'] += 1
+    ctx.cov['stages']['text_symbolic_validation'] = res
+    ctx.cov['evaluations'] += n
+    return res
